@@ -197,7 +197,7 @@ pub fn run(tier: Tier, seed: u64) -> i32 {
     stats.space(json!({"space": "exact: C02 document x layout space", "cases": space.n}));
     eprintln!("  exact part done t={:.1}s", stats.elapsed());
     // part 2: well-formedness on the malformed spaces of C03
-    for sp in super::c03::spaces(tier) {
+    for sp in super::c03::spaces_light(tier) {
         let before = stats.states.load(std::sync::atomic::Ordering::Relaxed);
         super::drive(
             &stats,
